@@ -164,7 +164,7 @@ Theorem never_default cfg f ds st :
   run (S f) cfg ds = Ok st ->
   forall x, In x (s_std st) ->
     let t := std_tag x in
-    t <> (0x7fe0, 0x0010) /\
+    ~ (fst t = 0x7fe0 /\ In (snd t) [0x0008; 0x0009; 0x0010]) /\
     ~ (N.land (fst t) 0xff00 = 0x6000 /\ snd t = 0x3000) /\
     ~ (fst t = 0x0028 /\ In (snd t) [0x1201; 0x1202; 0x1203; 0x1221; 0x1222; 0x1223]) /\
     (fst t) mod 2 <> 1.
@@ -175,7 +175,11 @@ Proof.
   clear Hrules H1. cbv zeta. destruct (std_tag x) as [g e]. simpl fst in *. simpl snd in *.
   unfold apply_rule in *. simpl fst in *. simpl snd in *.
   split; [|split; [|split]].
-  - intros Heq. injection Heq as -> ->. vm_compute in Ax. discriminate Ax.
+  - intros [Hg He]. change pixel_group with 0x7fe0 in Ax. change pixel_elems with [0x0008; 0x0009; 0x0010] in Ax.
+    rewrite Hg in Ax. rewrite N.eqb_refl in Ax. simpl andb in Ax.
+    assert (existsb (N.eqb e) [0x0008; 0x0009; 0x0010] = true) as E.
+    { apply existsb_exists. exists e. split; [exact He | apply N.eqb_refl]. }
+    simpl in E. congruence.
   - intros [Hg He]. change overlay_mask with 0xff00 in Ao. change overlay_group with 0x6000 in Ao. change overlay_elem with 0x3000 in Ao.
     rewrite Hg, He in Ao. vm_compute in Ao. discriminate Ao.
   - intros [Hg He]. change lut_group with 0x0028 in Al. change lut_elems with [0x1201; 0x1202; 0x1203; 0x1221; 0x1222; 0x1223] in Al.
